@@ -260,3 +260,41 @@ Fixpoint unzip_entries_memo (c : cfg) (f : fs) (dir : str) (made : list str) (es
                  end
         end
   end.
+
+(** NOT the deployed code: the path that is written is computed from a
+    REWRITTEN entry name [rw name] after the containment test judged the raw
+    [name] (e.g. translating separators for archives stamped as coming from
+    FAT or NTFS).  [write_zip_entry] is what [unzip_entry] does once its test
+    is passed; with [rw] the identity this is [unzip_entry] itself
+    ([unzip_entry_is_rw_id], Arch/Round3.v). *)
+Definition write_zip_entry (c : cfg) (f : fs) (name : str) (e : entry) : option xres * fs :=
+  match e_kind e with
+  | KDir =>
+      let '(ok, f1) := mkdir_all c f name (e_perm e) in
+      (if ok then None else Some XOsErr, f1)
+  | _ =>
+      let '(ok, f1) := mkdir_all c f (dir_of name) perm_dir_default in
+      if negb ok then (Some XOsErr, f1)
+      else match open_trunc c f1 name perm_create_default with
+           | None => (Some XOsErr, f1)
+           | Some (k, _, f2) =>
+               (None, set f2 k (NFile (N.land (e_perm e) perm_mask) (e_data e)))
+           end
+  end.
+
+Definition unzip_entry_rw (rw : str -> str) (c : cfg) (f : fs) (dir : str) (e : entry) : option xres * fs :=
+  if negb (in_dir dir (filepath_join [dir; e_name e])) then (Some XRefused, f)
+  else write_zip_entry c f (filepath_join [dir; rw (e_name e)]) e.
+
+Fixpoint unzip_entries_rw (rw : str -> str) (c : cfg) (f : fs) (dir : str) (es : list entry) : xres * fs :=
+  match es with
+  | [] => (XOk, f)
+  | e :: rest =>
+      match unzip_entry_rw rw c f dir e with
+      | (Some r, f1) => (r, f1)
+      | (None, f1) => unzip_entries_rw rw c f1 dir rest
+      end
+  end.
+
+(** backslash to slash *)
+Definition unbackslash (n : str) : str := map (fun ch => if ch =? 92 then 47 else ch) n.
